@@ -192,16 +192,13 @@ func genRouting(repo string) string {
 		comp = empty
 	}
 
-	// ---- (*node).getRoute
-	var prelude, chain, wildArm, leafBlk, slots []string
+	// ---- (*node).getRoute: the tests that answer before the descent
+	var prelude, chain, falls, accOrder, slots []string
+	var armCalls []string
+	var descendFn *ast.FuncDecl
 	g.guard("getRoute", func() {
 		fn := rtMethod(router, "node", "getRoute")
-		var loop *ast.ForStmt
 		for _, s := range fn.Body.List {
-			if f, ok := s.(*ast.ForStmt); ok {
-				loop = f
-				break
-			}
 			is, ok := s.(*ast.IfStmt)
 			if !ok {
 				continue
@@ -213,13 +210,32 @@ func genRouting(repo string) string {
 				case "":
 					prelude = append(prelude, "empty")
 				default:
-					g.fail(is, "getRoute: unexpected literal test %q before the loop", lit)
+					g.fail(is, "getRoute: unexpected literal test %q", lit)
 				}
 				continue
 			}
 			if rtMentions(is.Cond, "staticPaths") {
 				prelude = append(prelude, "staticPaths")
 				continue
+			}
+			// the call of the descent: `if leaf := n.<descend>(…); leaf != nil { return … }`
+			if is.Init != nil {
+				var call *ast.CallExpr
+				ast.Inspect(is.Init, func(x ast.Node) bool {
+					if c, ok := x.(*ast.CallExpr); ok && call == nil {
+						call = c
+					}
+					return call == nil
+				})
+				if call != nil && rtBlockReturns(is.Body) {
+					if m := router.methods["node"]; m != nil {
+						if d := m[rtCallee(call)]; d != nil && rtContainsCall(d.Body, "findChild") != nil {
+							descendFn = d
+							prelude = append(prelude, "descend")
+							continue
+						}
+					}
+				}
 			}
 			answers := false
 			ast.Inspect(is, func(x ast.Node) bool {
@@ -229,74 +245,155 @@ func genRouting(repo string) string {
 				return !answers
 			})
 			if answers {
-				g.fail(is, "getRoute: unrecognised answering test before the loop: %s", src(is.Cond))
+				g.fail(is, "getRoute: unrecognised answering test: %s", src(is.Cond))
 			}
 		}
-		if loop == nil {
-			g.fail(fn, "getRoute: no traversal loop")
+		if descendFn == nil {
+			g.fail(fn, "getRoute: no call of a node method that descends (one that calls findChild)")
 		}
-		// the chain: if next := X.findChild(seg); next != nil {…} else if X.param != nil {…} else if X.wildcard != nil {…} else {return}
-		var head *ast.IfStmt
-		var leaf *ast.IfStmt
-		for _, s := range loop.Body.List {
-			is, ok := s.(*ast.IfStmt)
-			if !ok {
-				continue
-			}
-			if is.Init != nil && rtContainsCall(is.Init, "findChild") != nil {
-				if head != nil {
-					g.fail(is, "getRoute: two findChild chains in the loop")
-				}
-				head = is
-				continue
-			}
-			if head != nil && leaf == nil && is.Init == nil && is.Else == nil && rtBlockReturns(is.Body) {
-				if _, ok := is.Cond.(*ast.Ident); ok {
-					leaf = is // `if isLast { … return }` after the chain
-					continue
-				}
-			}
-			g.fail(is, "getRoute: unrecognised if-statement in the loop: %s", src(is.Cond))
-		}
-		if head == nil || leaf == nil {
-			g.fail(loop, "getRoute: the loop has no findChild chain followed by a last-segment block")
-		}
-		chain = append(chain, "findChild")
-		cur := head.Else
-		for cur != nil {
-			switch e := cur.(type) {
-			case *ast.IfStmt:
-				switch {
-				case e.Init == nil && rtMentions(e.Cond, "param") && !rtMentions(e.Cond, "wildcard"):
-					chain = append(chain, "param")
-					if rtBlockReturns(e.Body) {
-						g.fail(e, "getRoute: the parameter arm returns")
-					}
-				case e.Init == nil && rtMentions(e.Cond, "wildcard") && !rtMentions(e.Cond, "param"):
-					chain = append(chain, "wildcard")
-					wildArm = g.blockEvents(e.Body, "bindParamNames", "validateConstraints")
-				default:
-					g.fail(e, "getRoute: unrecognised arm of the descent chain: %s", src(e.Cond))
-				}
-				cur = e.Else
-			case *ast.BlockStmt:
-				if !rtBlockReturns(e) {
-					g.fail(e, "getRoute: the final else of the descent chain does not return")
-				}
-				chain = append(chain, "miss")
-				cur = nil
-			default:
-				g.fail(cur, "getRoute: unexpected else form")
-			}
-		}
-		leafBlk = g.blockEvents(leaf.Body, "bindParamNames", "validateConstraints")
-		slots = rtSlotBounds(fn)
 	})
-	g.strList("getRoutePrelude", "`(*node).getRoute`: the tests that answer before the traversal loop, in order", prelude)
-	g.strList("descentChain", "`(*node).getRoute`: the arms of the if / else-if chain that chooses the next node, in order", chain)
-	g.strList("wildcardArm", "`(*node).getRoute`, wildcard arm: calls to bindParamNames / validateConstraints and the arm's own return, in source order", wildArm)
-	g.strList("leafBlock", "`(*node).getRoute`, last-segment block: calls to bindParamNames / validateConstraints and the block's own return, in source order", leafBlk)
-	g.natList("getRouteSlotBounds", "`(*node).getRoute`: every literal `N` of a comparison `ident < N` (the inline-slot bound)", slots)
+	// ---- the descent: static child, parameter child, wildcard — each arm falls through to the next when it
+	// does not find a route (backtracking) — then nil
+	g.guard("descend", func() {
+		if descendFn == nil {
+			g.fail(nil, "descend: not located")
+		}
+		self := descendFn.Name.Name
+		callsOf := func(b *ast.BlockStmt) string {
+			type ev struct {
+				pos token.Pos
+				s   string
+			}
+			var evs []ev
+			ast.Inspect(b, func(x ast.Node) bool {
+				if c, ok := x.(*ast.CallExpr); ok {
+					switch n := rtCallee(c); n {
+					case "captureParam", "accepts", "dropCaptures":
+						evs = append(evs, ev{c.Pos(), n})
+					case self:
+						evs = append(evs, ev{c.Pos(), "descend"})
+					}
+				}
+				return true
+			})
+			sort.Slice(evs, func(i, j int) bool { return evs[i].pos < evs[j].pos })
+			var w []string
+			for _, e := range evs {
+				w = append(w, e.s)
+			}
+			return strings.Join(w, ",")
+		}
+		lastIsReturn := func(b *ast.BlockStmt) bool {
+			if len(b.List) == 0 {
+				return false
+			}
+			_, ok := b.List[len(b.List)-1].(*ast.ReturnStmt)
+			return ok
+		}
+		for _, s := range descendFn.Body.List {
+			switch st := s.(type) {
+			case *ast.IfStmt:
+				label := ""
+				switch {
+				case st.Init != nil && rtContainsCall(st.Init, "findChild") != nil:
+					label = "findChild"
+				case st.Init == nil && rtMentions(st.Cond, "param") && !rtMentions(st.Cond, "wildcard"):
+					label = "param"
+				case st.Init == nil && rtMentions(st.Cond, "wildcard") && !rtMentions(st.Cond, "param"):
+					label = "wildcard"
+				}
+				if label == "" {
+					// a guard such as `if start >= pathLen { return nil }` before the first arm
+					if len(chain) == 0 && rtBlockReturns(st.Body) && st.Else == nil {
+						continue
+					}
+					g.fail(st, "descend: unrecognised if-statement: %s", src(st.Cond))
+				}
+				if st.Else != nil {
+					g.fail(st, "descend: arm %s has an else (the arms are tried one after the other)", label)
+				}
+				chain = append(chain, label)
+				if !lastIsReturn(st.Body) {
+					falls = append(falls, label)
+				}
+				armCalls = append(armCalls, label+":"+callsOf(st.Body))
+			case *ast.ReturnStmt:
+				if len(chain) > 0 {
+					chain = append(chain, "miss")
+				}
+			}
+		}
+		acc := rtMethod(router, "node", "accepts")
+		type ev struct {
+			pos token.Pos
+			s   string
+		}
+		var evs []ev
+		for _, s := range acc.Body.List {
+			if is, ok := s.(*ast.IfStmt); ok && rtMentions(is.Cond, "handlers") && rtBlockReturns(is.Body) {
+				evs = append(evs, ev{is.Pos(), "handlers"})
+			}
+		}
+		ast.Inspect(acc.Body, func(x ast.Node) bool {
+			if c, ok := x.(*ast.CallExpr); ok {
+				if n := rtCallee(c); n == "bindParamNames" || n == "validateConstraints" {
+					evs = append(evs, ev{c.Pos(), n})
+				}
+			}
+			return true
+		})
+		sort.Slice(evs, func(i, j int) bool { return evs[i].pos < evs[j].pos })
+		for _, e := range evs {
+			accOrder = append(accOrder, e.s)
+		}
+	})
+	// ---- the inline-slot bound wherever a slot is written under `if ident < N`
+	g.guard("slot bounds", func() {
+		var fns []*ast.FuncDecl
+		for _, d := range router.funcs {
+			fns = append(fns, d)
+		}
+		for _, m := range router.methods {
+			for _, d := range m {
+				fns = append(fns, d)
+			}
+		}
+		sort.Slice(fns, func(i, j int) bool { return fns[i].Pos() < fns[j].Pos() })
+		for _, fn := range fns {
+			ast.Inspect(fn.Body, func(x ast.Node) bool {
+				is, ok := x.(*ast.IfStmt)
+				if !ok {
+					return true
+				}
+				b, ok := is.Cond.(*ast.BinaryExpr)
+				if !ok || b.Op != token.LSS {
+					return true
+				}
+				l, ok := b.Y.(*ast.BasicLit)
+				if !ok || l.Kind != token.INT {
+					return true
+				}
+				writes := false
+				for _, q := range is.Body.List {
+					if as, ok := q.(*ast.AssignStmt); ok && len(as.Lhs) == 1 {
+						if ix, ok := as.Lhs[0].(*ast.IndexExpr); ok && rtMentions(ix.X, "paramKeys") {
+							writes = true
+						}
+					}
+				}
+				if writes {
+					slots = append(slots, l.Value)
+				}
+				return true
+			})
+		}
+	})
+	g.strList("getRoutePrelude", "`(*node).getRoute`: the tests that answer, in order (`descend` = the call of the descent)", prelude)
+	g.strList("descentChain", "the descent (`(*node).descend`): its arms in order, then the final `return nil`", chain)
+	g.strList("descentFallsThrough", "the arms of the descent whose block does not end in a return: an arm that finds no route hands over to the next one", falls)
+	g.strList("descentArmCalls", "per arm of the descent: its calls of captureParam / accepts / descend / dropCaptures in source order", armCalls)
+	g.strList("acceptsOrder", "`(*node).accepts`: the nil-handlers test, bindParamNames, validateConstraints in source order", accOrder)
+	g.natList("slotWriteBounds", "package router: the literal `N` of every `if ident < N { …paramKeys[…] = … }`", slots)
 
 	// ---- bindParamNames
 	var bindSlots []string
